@@ -358,6 +358,7 @@ def harness(where_kind):
             at_iteration=lambda interp_, env, k: ctx.assume(unfold(k)),
         )
         spec.assume_invariant = inv_hyps
+        spec.expect_iterable = (n, lambda j: VARS[j])  # every input of the op, in order, indices from 0
         cfg.loop_specs[(f"{OB}:Operation.backward", 0)] = spec
         f = interp.global_lookup(interp.module(OB), "Operation")
         bw, _ = f.lookup(interp, "backward")
